@@ -168,89 +168,7 @@ func rulesC11(c *Ctx) {
 
 	// ---- R2
 	if f := c.fn("R2", "crypto.DeriveKeysetId"); f != nil {
-		fk := c.P.FuncKey(f)
-		o := c.P.OriginsOf(f)
-		ks := "P:" + f.Params[0].Name()
-		// the list that is sorted holds every (amount, key) of the map
-		var sorted *Ex
-		okSort := false
-		why := "no sort call found"
-		for _, g := range []string{"sort.Slice", "sort.SliceStable", "slices.SortFunc", "slices.SortStableFunc"} {
-			for _, ci := range c.callsNamed(f, g) {
-				d := c.P.Describe(ci)
-				sorted = o.Of(d.Args[0])
-				// comparator
-				cmpFn := resolveFuncValue(d.Args[1])
-				if cmpFn == nil {
-					why = "comparator not resolvable"
-					continue
-				}
-				co := c.P.OriginsOf(cmpFn)
-				for _, r := range Returns(cmpFn) {
-					e := co.Of(r.Results[0])
-					s := e.String()
-					if strings.HasPrefix(g, "sort.") {
-						okSort = e.K == "bin" && e.S == "<" && strings.HasSuffix(e.Args[0].String(), ".amount") && strings.HasSuffix(e.Args[1].String(), ".amount") && strings.Contains(e.Args[0].String(), "[P:i]") && strings.Contains(e.Args[1].String(), "[P:j]")
-					} else {
-						okSort = isCall(e, "cmp.Compare") && strings.HasSuffix(arg(e, 0).String(), ".amount") && strings.HasSuffix(arg(e, 1).String(), ".amount") && strings.HasPrefix(arg(e, 0).String(), "P:a") && strings.HasPrefix(arg(e, 1).String(), "P:b")
-					}
-					if !okSort {
-						why = "comparator returns " + short(s, 140)
-					}
-				}
-			}
-		}
-		// library form: the ascending list of the map's own keys, each key then looked up in the same map
-		sortedKeys := "slices.Sorted(maps.Keys(" + ks + "))"
-		keysForm := false
-		if !okSort {
-			for _, ci := range c.callsNamed(f, "slices.Sorted") {
-				if e := o.Of(ci.Value()); e.String() == sortedKeys {
-					okSort, keysForm, sorted = true, true, e
-				}
-			}
-		}
-		R.Check("R2", fk, "keys sorted ascending by amount (total order on uint64)", c.P.Pos(f.Pos()), okSort, "the keys are sorted by amount with a comparison that is a total order on uint64", why)
-		okAll := sorted != nil && (keysForm || (strings.Contains(sorted.String(), "amount=key("+ks+")") && strings.Contains(sorted.String(), "pk=elem("+ks+")")))
-		R.Check("R2", fk, "every key of the map takes part", c.P.Pos(f.Pos()), okAll, "the sorted list is built from every (amount, key) entry of the map", func() string {
-			if sorted != nil {
-				return short(sorted.String(), 160)
-			}
-			return ""
-		}())
-		okSer, okHash := false, false
-		for _, ci := range c.callsNamed(f, "(hash.Hash).Write") {
-			e := o.Of(c.P.Describe(ci).Args[0])
-			okSer = e.K == "acc" && e.S == "append" && strings.Contains(e.String(), "SerializeCompressed(elem(") && !strings.Contains(e.String(), "Uncompressed")
-			okHash = isCall(o.Of(c.P.Describe(ci).Recv), "crypto/sha256.New")
-		}
-		// one-shot digest: sha256.Sum256(concatenation)
-		for _, ci := range c.callsNamed(f, fnSha256) {
-			e := o.Of(c.P.Describe(ci).Args[0])
-			if e.K == "acc" && e.S == "append" && strings.Contains(e.String(), "SerializeCompressed(") && !strings.Contains(e.String(), "Uncompressed") {
-				if !keysForm && strings.Contains(e.String(), "SerializeCompressed(elem(") {
-					okSer, okHash = true, true
-				}
-				if keysForm && strings.Contains(e.String(), "SerializeCompressed("+ks+"[elem("+sortedKeys+")])") {
-					okSer, okHash = true, true
-				}
-			}
-		}
-		if keysForm && !okHash {
-			for _, ci := range c.callsNamed(f, "(hash.Hash).Write") {
-				e := o.Of(c.P.Describe(ci).Args[0])
-				okSer = e.K == "acc" && e.S == "append" && strings.Contains(e.String(), "SerializeCompressed("+ks+"[elem("+sortedKeys+")])")
-				okHash = isCall(o.Of(c.P.Describe(ci).Recv), "crypto/sha256.New")
-			}
-		}
-		R.Check("R2", fk, "compressed keys of the whole sorted list are concatenated", c.P.Pos(f.Pos()), okSer, "the digest input is the concatenation of the compressed serialisation of every sorted key", "")
-		R.Check("R2", fk, "SHA-256", c.P.Pos(f.Pos()), okHash, "the digest is SHA-256", "")
-		okRes := false
-		for _, r := range Returns(f) {
-			e := o.Of(r.Results[0])
-			okRes = e.K == "bin" && e.S == "+" && isConst(e.Args[0], "\"00\"") && e.Args[1].K == "slice" && isConst(e.Args[1].Args[2], "14") && isCall(e.Args[1].Args[0], fnHexEncode)
-		}
-		R.Check("R2", fk, "id = \"00\" + first 14 hex characters", c.P.Pos(f.Pos()), okRes, "the id is the version prefix 00 followed by the first 14 characters of the hex digest", "")
+		c.c11KeysetId(f)
 	}
 
 	// ---- R3
@@ -332,4 +250,140 @@ func rulesC11(c *Ctx) {
 		ok := one && got == "hdkeychain.(*ExtendedKey).ECPrivKey#0("+chain("P:"+f.Params[0].Name(), "#2147613020", "#2147483648", "#2147483649", "#0")+")"
 		R.Check("R5", c.P.FuncKey(f), "m/129372'/0'/1'/0", c.P.Pos(f.Pos()), ok, "the wallet's P2PK key path is 129372'/0'/1'/0", short(got, 300))
 	}
+}
+
+// c11KeysetId: R2, stated over the data flow instead of one coding of it. The digest input is the compressed
+// serialisation of every key of the map, in ascending order of amount:
+//   - the serialised keys are taken from a list R that ranges over all entries of the map (a slice of
+//     (amount, key) structs, or a list of the amounts with the key looked up in the same map);
+//   - R is in ascending order of amount (slices.Sorted(maps.Keys(m)), or sorted in place with slices.Sort /
+//     sort.Slice / slices.SortFunc by the amount, in the function or in a helper that is new on this tree);
+//   - the bytes reach SHA-256 in list order: concatenated and hashed, or written to the hash once per
+//     iteration of the whole-range loop over R;
+//   - the id is "00" followed by the first 14 hex characters of the digest.
+func (c *Ctx) c11KeysetId(f *ssa.Function) {
+	R := c.R
+	fk := c.P.FuncKey(f)
+	o := c.P.OriginsOf(f)
+	ks := "P:" + f.Params[0].Name()
+	pos := c.P.Pos(f.Pos())
+	// the serialisation call and the list it ranges over
+	var ser ssa.CallInstruction
+	var list *Ex
+	keysForm := false
+	for _, ci := range c.callsNamed(f, "secp256k1.(PublicKey).SerializeCompressed") {
+		d := c.P.Describe(ci)
+		if d.Recv == nil {
+			continue
+		}
+		e := o.Of(d.Recv)
+		switch {
+		case e.K == "field" && e.Args[0].K == "elem": // elem(R).pk
+			ser, list = ci, e.Args[0].Args[0]
+		case (e.K == "lookup" || e.K == "index") && e.Args[0].String() == ks && e.Args[1].K == "elem": // m[elem(R)]
+			ser, list, keysForm = ci, e.Args[1].Args[0], true
+		}
+	}
+	if ser == nil {
+		R.Check("R2", fk, "every key of the map takes part", pos, false, "the sorted list is built from every (amount, key) entry of the map", "no SerializeCompressed of a key taken from a list over the map")
+		return
+	}
+	ls := list.String()
+	// sortedness
+	okSort, why := false, "no sort of the list found"
+	if ls == "slices.Sorted(maps.Keys("+ks+"))" {
+		okSort = true
+	}
+	for _, og := range c.OpContexts(f) {
+		for _, ci := range Calls(og.Fn) {
+			d := c.P.Describe(ci)
+			switch d.Name {
+			case "slices.Sort":
+				if keysForm && og.Of(d.Args[0]).String() == ls {
+					okSort = true
+				}
+			case "sort.Slice", "sort.SliceStable", "slices.SortFunc", "slices.SortStableFunc":
+				if og.Of(d.Args[0]).String() != ls {
+					continue
+				}
+				cmpFn := resolveFuncValue(d.Args[1])
+				if cmpFn == nil {
+					why = "comparator not resolvable"
+					continue
+				}
+				co := c.P.OriginsOf(cmpFn)
+				for _, r := range Returns(cmpFn) {
+					e := co.Of(r.Results[0])
+					var okc bool
+					if strings.HasPrefix(d.Name, "sort.") {
+						okc = e.K == "bin" && e.S == "<" && strings.Contains(e.Args[0].String(), "[P:i]") && strings.Contains(e.Args[1].String(), "[P:j]") &&
+							(keysForm || (strings.HasSuffix(e.Args[0].String(), ".amount") && strings.HasSuffix(e.Args[1].String(), ".amount")))
+					} else {
+						okc = isCall(e, "cmp.Compare") && strings.HasPrefix(arg(e, 0).String(), "P:a") && strings.HasPrefix(arg(e, 1).String(), "P:b") &&
+							(keysForm || (strings.HasSuffix(arg(e, 0).String(), ".amount") && strings.HasSuffix(arg(e, 1).String(), ".amount")))
+					}
+					if okc {
+						okSort = true
+					} else {
+						why = "comparator returns " + short(e.String(), 140)
+					}
+				}
+			}
+		}
+	}
+	R.Check("R2", fk, "keys sorted ascending by amount (total order on uint64)", pos, okSort, "the keys are sorted by amount with a comparison that is a total order on uint64", why)
+	// completeness of the list
+	okAll := false
+	switch {
+	case keysForm:
+		okAll = ls == "slices.Sorted(maps.Keys("+ks+"))" || ls == "map("+ks+" => key("+ks+"))" || ls == "make:[]uint64{key("+ks+")}"
+	default:
+		okAll = strings.Contains(ls, "amount=key("+ks+")") && strings.Contains(ls, "pk=elem("+ks+")")
+	}
+	R.Check("R2", fk, "every key of the map takes part", pos, okAll, "the sorted list is built from every (amount, key) entry of the map", short(ls, 160))
+	// the bytes reach SHA-256 in list order
+	okSer, okHash := false, false
+	serEx := o.Of(ser.Value()).String()
+	isConcat := func(e *Ex) bool {
+		return e.K == "acc" && e.S == "append" && len(e.Args) == 2 && e.Args[1].K == "spread" && e.Args[1].Args[0].String() == serEx
+	}
+	for _, ci := range c.callsNamed(f, "(hash.Hash).Write") {
+		d := c.P.Describe(ci)
+		e := o.Of(d.Args[0])
+		isSha := isCall(o.Of(d.Recv), "crypto/sha256.New")
+		if isConcat(e) {
+			okSer, okHash = true, isSha
+		}
+		// streaming: one Write of the serialised key per iteration of the whole-range loop over the list
+		if e.String() == serEx {
+			if l := o.Loops.InnermostContaining(ci.Block()); l != nil && l.RangeOf != nil && o.Of(l.RangeOf).String() == ls {
+				cut := NewCut()
+				cut.Barriers[ci] = true
+				for b := range l.Blocks {
+					for i, sb := range b.Succs {
+						if !l.Blocks[sb] {
+							cut.Edges[Edge{b, i}] = true
+						}
+					}
+				}
+				body := l.Header.Succs[l.BodySucc]
+				if reach, _ := Reach(Point{body, 0}, Point{l.Header, 0}, cut); !reach {
+					okSer, okHash = true, isSha
+				}
+			}
+		}
+	}
+	for _, ci := range c.callsNamed(f, fnSha256) {
+		if isConcat(o.Of(c.P.Describe(ci).Args[0])) {
+			okSer, okHash = true, true
+		}
+	}
+	R.Check("R2", fk, "compressed keys of the whole sorted list are concatenated", pos, okSer, "the digest input is the concatenation of the compressed serialisation of every sorted key", "")
+	R.Check("R2", fk, "SHA-256", pos, okHash, "the digest is SHA-256", "")
+	okRes := false
+	for _, r := range Returns(f) {
+		e := o.Of(r.Results[0])
+		okRes = e.K == "bin" && e.S == "+" && isConst(e.Args[0], "\"00\"") && e.Args[1].K == "slice" && isConst(e.Args[1].Args[2], "14") && isCall(e.Args[1].Args[0], fnHexEncode)
+	}
+	R.Check("R2", fk, "id = \"00\" + first 14 hex characters", pos, okRes, "the id is the version prefix 00 followed by the first 14 characters of the hex digest", "")
 }
